@@ -50,9 +50,29 @@ META = {
             "frames deep); write in the three flat directions completes everywhere except the drop-glue cells. Carried only "
             "by correspondence/exploration, not by a theorem: (a) that the Rust functions have the call structure of "
             "the models (hook counters vs model, exact, depths 10/100/1000; drop glue only through stack bytes because "
-            "derived drop glue cannot carry a counter); (b) closure / continuation chains, macro-using nested "
+            "derived drop glue cannot carry a counter); (b) macro-using nested "
             "expressions (let), free-variable analysis: measured affine depth with a fixed slope (oracle lines), no "
-            "Lean model; (c) non-tail recursion using no native stack: observed (children complete at 10^5 on a 2 MiB "
+            "Lean model. Closure and continuation CHAINS now have a model and theorems: Marwood.Depth.markDepthHeap is "
+            "the marker on the C03 heap model's graph (cells of Heap/Cell.lean, mark bits included) with the recursion "
+            "structure of heap.rs - mark is ONE frame looping along Pair cdr and Ptr and recursing for a pair's car, a "
+            "closure's code and environment, an EnvironmentPointer; environment slots, vector elements, bytecode cells "
+            "(jump operands skipped) and saved stack cells go through mark_vcell; mark_lambda and mark_continuation "
+            "are frames of their own - with fuel; closureChain n / contChain n are built through Heap.put "
+            "(Lemmas/DepthGraph.lean proves what the puts leave in the heap: chain_cells); closed theorems "
+            "T19_u_closure_chain (exactly 5n frames on a chain of n >= 1 closures: closure -> environment -> "
+            "LexicalEnvPtr -> activation environment -> Ptr -> closure) and T19_u_continuation_chain (exactly 3n + 3 "
+            "on n >= 1 continuations each saved on the stack of the next), both unbounded. Tie: `measure mark "
+            "closure|cont n` - the harness builds the chain at run time with (define (wrap acc) (lambda () acc)) / "
+            "(define (wrap acc) (call/cc (lambda (k) k))) applied n times in a tail loop, collects, calls Heap::mark "
+            "on the outermost object and reads the hook counter; the driver runs markDepthHeap on the Lean family; "
+            "exact equality at n = 10/100/1000 in release and debug (closure: 5n = 5n; continuation: hook 3n + 9 = "
+            "model 3n + 3 plus the declared constant contContext = 6 of Driver/Depth.lean - the saved stacks of real "
+            "continuations also hold return addresses into the loop and the top-level code object and their ep is the "
+            "loop's environment; contChain models the chain proper, with ip.0 a code object and ep a cell outside "
+            "the chain; a change of the marker's recursion on closures / environments / continuations changes the "
+            "slope and breaks the equality at every n, a change of the context changes the constant and breaks it "
+            "too). The grid cells of the directions closure / cont stay `unmodelled` (they are built by a named let, "
+            "marked from all roots in HashMap order, and also exercise equal? / the printer / drop); (c) non-tail recursion using no native stack: observed (children complete at 10^5 on a 2 MiB "
             "thread in a debug build, marker depth constant), the VM-stack theorem is C04's; (d) whether depth n "
             "overflows a given stack is a runtime fact — the child exhibits it. The reader model is a skeleton over "
             "token kinds (one bracket kind, atoms are single tokens); derived Clone/PartialEq/Hash of Cell also "
@@ -83,6 +103,9 @@ THEOREMS = [P + t for t in [
     "T19_b_cdr_of_pairs",
     "T19_b_cdr_dotted",
     "T19_u_drop_put_every_list",
+    "T19_u_closure_chain",
+    "T19_u_continuation_chain",
+    "chain_cells",
     "C19_depth_partial",
     "C19_depth_fails",
     "C19_depth_false",
@@ -219,6 +242,15 @@ def streams(ctx):
                           timeout=3000)
         md, sd = correspond(ctx, "grid", cases, nontrivial, spec_equal, make_model_equal(DropFit()))
         settle(ctx, md, sd, max_report=5)
+        if ctx.quick() and profile == "release":
+            # library procedures on LONG run-time data (table LIB of the harness) at 10^5 in the quick tier too: the
+            # thresholds of realistic regressions (a builtin that starts converting its argument to a Cell) lie
+            # between 10^4 and 10^5; the debug profile at 10^5 is left to the thorough tier (prelude map takes 40 s)
+            lib = gen_cases("depth", ["grid", 100000, "--only", "lib/*", "--timeout", 60], ctx.seed, profile,
+                            timeout=3000)
+            md, sd = correspond(ctx, "grid", lib, nontrivial, spec_equal, make_model_equal(DropFit()))
+            settle(ctx, md, sd, max_report=5)
+            cases = cases + lib
         st = ctx.streams["grid"]
         for c in cases:
             k = "outcome_" + c[1].split(" ")[0]
@@ -233,7 +265,8 @@ def run(ctx):
         rule="measure: hook depth counters of the real functions vs the Lean depth models on the nested families "
              "(car, cdr, dotted cdr, vector, quote chain, cdr-of-pairs = list of fresh pairs / vectors, cdr-dotted = "
              "flat list with an improper end, nested application / lambda / let, closure and continuation chains) at depths 10, 100, 1000, in release and debug builds, exact equality (drop glue: stack bytes "
-             "affine in the model's frames; families without a model: fixed slope); grid: one child process per "
+             "affine in the model's frames; closure / continuation chains: Heap::mark on the outermost object vs the "
+             "graph-level marker model on closureChain n / contChain n, exact; families without a model: fixed slope); grid: one child process per "
              "(operation, direction, depth in {10^3, 10^4[, 10^5 thorough]}, main 8 MiB / 2 MiB thread, release / "
              "debug), 64 (operation, direction) pairs (directions car, cdr, cdr-of-pairs, cdr-dotted, vec, quote x read, "
              "quote-evaluate, build, gc, equal on two separately built copies, write, drop; dot; closure / "
